@@ -350,12 +350,19 @@ class MessageQueue(Entity):
         msg = self._messages[message_id]
         msg.state = MessageState.ACKNOWLEDGED
 
-        # Remove from in-flight and messages
+        # Remove from in-flight and messages (and from the pending queue: a
+        # redelivery timeout may have moved the message back before this ack)
         self._in_flight.pop(message_id, None)
+        self._discard_pending(message_id)
         self._messages.pop(message_id, None)
         self._redelivery_scheduled.discard(message_id)
 
         self._messages_acknowledged += 1
+
+    def _discard_pending(self, message_id: str) -> None:
+        """Drop a message ID from the pending queue if it is there."""
+        if message_id in self._pending_queue:
+            self._pending_queue.remove(message_id)
 
     def reject(self, message_id: str, requeue: bool = True) -> None:
         """Reject a message.
@@ -371,8 +378,10 @@ class MessageQueue(Entity):
         msg.state = MessageState.REJECTED
         self._messages_rejected += 1
 
-        # Remove from in-flight
+        # Remove from in-flight (and from the pending queue: a redelivery
+        # timeout may have moved the message back before this reject)
         self._in_flight.pop(message_id, None)
+        self._discard_pending(message_id)
 
         if requeue and msg.delivery_count < self._max_redeliveries:
             # Requeue for redelivery
